@@ -2,6 +2,7 @@
  *
  * op file (one op per line, tokens separated by single spaces):
  *   cmp  <A> <B>        O cmp s=<sign cmp(A,B)> rs=<sign cmp(B,A)> eq= neq= gt= lt= ge= le=      |  O cmp exc=<E> rexc=<E>
+ *   lcmp <A> <B>        one direction only:  O lcmp s=<sign cmp(A,B)> eq= neq= gt= lt= ge= le=      |  O lcmp exc=<E>
  *   tri  <A> <B> <C>    O tri ab= ba= bc= cb= ac= ca=
  *   keys <v1> … <vn>    scalars of one kind set into a Tree and a Table (value = index):
  *                       O keys n= tree=<len> table=<len> order=<values in Tree iteration order> tget=<get per key> hget=<…>
@@ -9,16 +10,34 @@
  * values (prefix terms):  i<decimal int64>  f<16 hex digits: the bits of a double, NaN refused>  s<hex bytes, no 00>
  *   t<TypeName>  p<tid>:<hex bytes> (plain struct types declared below: 0 = size 0, 1 and 2 = 4 bytes, 3 = 16 bytes)
  *   A<n> v1…vn (Array)  L<n> … (List)  T<n> … (Tuple)  R<n> k1 v1 … kn vn (Tree)
- * Which values/pairs are run is the rule of lean/Cello/Cmp.lean (`Val.valid`, `comparable`, `runnable`), implemented
- * here a second time; anything else prints `O bad-op` on both sides.
+ *   &<k> <term>  names the OBJECT built from <term> (k = 0…63, once per line);  *<k>  is that object again: the same pointer in
+ *   two slots of a Tuple (a Tuple holds references; Array / List / Tree take copies), in both operands, or as both operands.
+ *   A name is usable only after its term is complete, so no object contains itself.
+ * A sign is printed as `H` when the call did not return (it is then run in a forked child and killed) and `C` when the child died.
+ * Comparisons in which an operand holds a Tuple with one object in two slots (an identity walk over it never ends), and every
+ * comparison after the first oracle failure of the process, run in a forked child; everything else runs under a watchdog
+ * timer that reports `sig=cmp-hang` with the line and ends the process.
+ * Which values/pairs are run is the rule of lean/Cello/Cmp.lean (`Val.valid`, `comparable`) and lean/Driver/Cmp.lean
+ * (`okPair`, `runnableObj`), implemented here a second time; anything else prints `O bad-op` on both sides.
  *
  * Direct oracle (independent of the Lean model): `ref_cmp` below — integers by `<`, doubles by the C relational operators
  * (never by subtraction) and, cross-checked, by the sign-magnitude key of their bits, strings / type names / plain structs by
  * an explicit unsigned-byte loop, sequences lexicographically with the shorter first, Trees as their entries in descending
  * key order, key then value.  Every cmp result is checked for: sign = reference, antisymmetry, reflexivity, the six
- * predicates = predicates of the sign; triples for transitivity; Tree/Table for finding every key that was set. */
+ * predicates = predicates of the sign; triples for transitivity; Tree/Table for finding every key that was set.
+ * The reference works on the VALUES (the parsed terms): which objects are shared must not matter.
+ *
+ * Known finding KF-C09-tuple-dup-obj (root cause F13): X_Cmp walks its RIGHT operand with iter_next, and Tuple_Iter_Next finds the
+ * current element again by pointer identity; with one object in two slots of the right-hand Tuple the walk falls back to the
+ * slot after the first occurrence.  Failures of a call whose right operand contains such a Tuple are printed with
+ * sig=kf-c09-tuple-dup-obj; the generators never put such a Tuple on the right (`lcmp` exists for that: a Tuple with a repeated
+ * object as the LEFT operand only). */
 #include "common.h"
 #include <inttypes.h>
+#include <poll.h>
+#include <signal.h>
+#include <sys/time.h>
+#include <errno.h>
 
 struct P0 {};                          var P0 = CelloEmpty(P0);
 struct P4 { unsigned char b[4]; };     var P4 = Cello(P4);
@@ -32,6 +51,7 @@ typedef struct V {
   unsigned char* bytes; size_t nbytes; int tid; var type;
   struct V** el; size_t n;          /* containers: n elements; Tree: n entries = 2n elements k,v,k,v,… */
   var obj;
+  int refs;                         /* `*k` hands out the same V again */
 } V;
 
 #define TN(X) { #X, &X }
@@ -74,10 +94,32 @@ static int parse_count(const char* s, size_t* out) {
   *out = v; return 1;
 }
 
+#define MAXNAME 63
+static V* named[MAXNAME + 1];
+static int line_alias;               /* the line uses & or * (statistics) */
+
+static int parse_name(const char* s) {
+  size_t l = strlen(s); if (l == 0 || l > 2) return -1;
+  int k = 0; for (; *s; s++) { if (*s < '0' || *s > '9') return -1; k = k * 10 + (*s - '0'); }
+  return k <= MAXNAME ? k : -1;
+}
+
 static V* parse_val(void) {
   if (tpos >= ntok) return NULL;
   const char* t = toks[tpos++];
-  V* v = calloc(1, sizeof(V));
+  if (t[0] == '&') {
+    int k = parse_name(t + 1); if (k < 0 || named[k]) return NULL;
+    line_alias = 1;
+    V* v = parse_val(); if (!v) return NULL;
+    if (named[k]) { v_free(v); return NULL; }          /* named again inside its own term */
+    named[k] = v; return v;
+  }
+  if (t[0] == '*') {
+    int k = parse_name(t + 1); if (k < 0 || !named[k]) return NULL;
+    line_alias = 1;
+    named[k]->refs++; return named[k];
+  }
+  V* v = calloc(1, sizeof(V)); v->refs = 1;
   switch (t[0]) {
     case 'i': {
       const char* p = t + 1; int neg = 0; if (*p == '-') { neg = 1; p++; }
@@ -176,8 +218,30 @@ static int comparable(V* a, V* b) {
   return 0;
 }
 
+/* one object in two slots of this Tuple itself */
+static int has_dup_top(V* v) {
+  if (v->kind != K_TUP) return 0;
+  for (size_t i = 0; i < v->n; i++) for (size_t j = i + 1; j < v->n; j++) if (v->el[i] == v->el[j]) return 1;
+  return 0;
+}
+
+/* `comparable`, except that where one of two sequences is a Tuple holding an object twice an identity walk can bring ANY element
+   of the one against ANY element of the other: all of those pairs must be of one kind (lean/Driver/Cmp.lean `okPair`) */
+static int ok_pair(V* a, V* b) {
+  if (is_seq(a) && is_seq(b)) {
+    if (has_dup_top(a) || has_dup_top(b)) {
+      for (size_t i = 0; i < a->n; i++) for (size_t j = 0; j < b->n; j++) if (!ok_pair(a->el[i], b->el[j])) return 0;
+      return 1;
+    }
+    for (size_t k = 0; k < a->n && k < b->n; k++) if (!ok_pair(a->el[k], b->el[k])) return 0;
+    return 1;
+  }
+  if (is_seq(a) || is_seq(b)) return 0;
+  return comparable(a, b);
+}
+
 static int runnable(V* a, V* b) {
-  return valid(a) && valid(b) && (comparable(a, b) || (a->kind == K_PLAIN && b->kind == K_PLAIN));
+  return valid(a) && valid(b) && (ok_pair(a, b) || (a->kind == K_PLAIN && b->kind == K_PLAIN));
 }
 
 /* ------------------------------------------------------------------------------------------------ building Cello objects */
@@ -186,6 +250,7 @@ static var elem_type(int kind) {
 }
 
 static var build(V* v) {
+  if (v->obj) return v->obj;          /* a shared object is built once */
   switch (v->kind) {
     case K_INT: v->obj = new_raw(Int, $I(v->i)); break;
     case K_FLT: v->obj = new_raw(Float, $F(v->d)); break;
@@ -215,6 +280,7 @@ static var build(V* v) {
 
 static void v_free(V* v) {
   if (!v) return;
+  if (--v->refs > 0) return;
   if (v->el) { size_t ne = nelems(v); for (size_t k = 0; k < ne; k++) v_free(v->el[k]); free(v->el); }
   if (v->obj) {
     if (v->kind == K_PLAIN) dealloc_raw(v->obj);
@@ -287,64 +353,207 @@ static int ref_cmp(V* a, V* b) {
 
 /* ------------------------------------------------------------------------------------------------ ops */
 static size_t lineno;
-static size_t n_cmp = 0, n_exc = 0, n_nonzero = 0;
+static size_t n_cmp = 0, n_exc = 0, n_nonzero = 0, n_forked = 0, n_hang = 0, n_alias = 0, n_kf = 0;
+static size_t n_fail = 0;            /* oracle failures so far in this process */
+#define XF(...) do { n_fail++; X(__VA_ARGS__); } while (0)
+#define KF_SIG "kf-c09-tuple-dup-obj"
 
-static const char* call_cmp(var a, var b, int* out) {
-  var exc; volatile int r = 0;
-  V_TRY(exc, r = cmp(a, b));
-  *out = r; return exc ? v_exc_name(exc) : NULL;
+/* a Tuple, at any depth, that references one object from two slots */
+static int has_dup_tuple(V* v) {
+  if (v->kind != K_TUP) return 0;
+  for (size_t i = 0; i < v->n; i++) for (size_t j = i + 1; j < v->n; j++) if (v->el[i] == v->el[j]) return 1;
+  for (size_t i = 0; i < v->n; i++) if (has_dup_tuple(v->el[i])) return 1;
+  return 0;
 }
 
-static void op_cmp(V* a, V* b) {
+/* ---- calls into the library: directly, or in a forked child that is killed when it does not answer */
+enum { ST_OK = 0, ST_EXC = 1, ST_HANG = 2, ST_CRASH = 3 };
+typedef struct { var a, b; int preds; } CmpCall;            /* preds = 0: cmp(a, b);  1: eq neq gt lt ge le (a, b) */
+typedef struct { int st; int c; int p[6]; char exc[40]; } CmpRet;
+
+static void do_call(const CmpCall* k, CmpRet* r) {
+  memset(r, 0, sizeof *r);
+  var exc;
+  if (!k->preds) { volatile int c = 0; V_TRY(exc, c = cmp(k->a, k->b)); r->c = c; }
+  else {
+    volatile int p0 = 0, p1 = 0, p2 = 0, p3 = 0, p4 = 0, p5 = 0;
+    V_TRY(exc, { p0 = eq(k->a, k->b); p1 = neq(k->a, k->b); p2 = gt(k->a, k->b); p3 = lt(k->a, k->b); p4 = ge(k->a, k->b); p5 = le(k->a, k->b); });
+    r->p[0] = p0; r->p[1] = p1; r->p[2] = p2; r->p[3] = p3; r->p[4] = p4; r->p[5] = p5;
+  }
+  if (exc) { r->st = ST_EXC; snprintf(r->exc, sizeof r->exc, "%s", v_exc_name(exc)); }
+}
+
+#define ANSWER_CPU_MS 300      /* CPU time a forked call may use */
+#define ANSWER_MS 20000        /* … and, as a backstop, wall time the parent waits for it */
+static volatile sig_atomic_t op_serial = 0;     /* bumped whenever the main process makes progress (watchdog) */
+
+static int read_full(int fd, void* buf, size_t n, int timeout_ms) {
+  /* 1 = record read, 0 = timed out, -1 = end of file / error (the child died) */
+  size_t got = 0; struct timeval t0, t1; gettimeofday(&t0, NULL);
+  while (got < n) {
+    gettimeofday(&t1, NULL);
+    long el = (t1.tv_sec - t0.tv_sec) * 1000L + (t1.tv_usec - t0.tv_usec) / 1000L;
+    if (el >= timeout_ms) return 0;
+    struct pollfd pf = { fd, POLLIN, 0 };
+    int pr = poll(&pf, 1, (int)(timeout_ms - el));
+    if (pr < 0) { if (errno == EINTR) continue; return -1; }
+    if (pr == 0) return 0;
+    ssize_t k = read(fd, (char*)buf + got, n - got);
+    if (k < 0) { if (errno == EINTR) continue; return -1; }
+    if (k == 0) return -1;
+    got += (size_t)k;
+  }
+  return 1;
+}
+
+static void run_calls(const CmpCall* ks, CmpRet* rs, int n, int guard) {
+  n_cmp += (size_t)n;
+  if (!guard) { for (int i = 0; i < n; i++) do_call(&ks[i], &rs[i]); return; }
+  int start = 0;
+  while (start < n) {
+    int fd[2]; if (pipe(fd) != 0) { perror("pipe"); exit(3); }
+    fflush(stdout); fflush(stderr);
+    pid_t pid = fork();
+    if (pid < 0) { perror("fork"); exit(3); }
+    if (pid == 0) {
+      /* each call gets ANSWER_CPU_MS of CPU time of its own (a loaded machine cannot make a call that returns look like one
+         that does not); the default action of SIGVTALRM ends the child, the parent sees which signal it was */
+      close(fd[0]); signal(SIGVTALRM, SIG_DFL); signal(SIGALRM, SIG_DFL); alarm(60);
+      for (int i = start; i < n; i++) {
+        struct itimerval it = { {0, 0}, {ANSWER_CPU_MS / 1000, (ANSWER_CPU_MS % 1000) * 1000} }; setitimer(ITIMER_VIRTUAL, &it, NULL);
+        CmpRet r; do_call(&ks[i], &r);
+        if (write(fd[1], &r, sizeof r) != (ssize_t)sizeof r) _exit(4);
+      }
+      _exit(0);
+    }
+    n_forked++;
+    close(fd[1]);
+    int got = start, why = 1;
+    while (got < n) { CmpRet r; why = read_full(fd[0], &r, sizeof r, ANSWER_MS); op_serial++; if (why != 1) break; rs[got++] = r; }
+    if (got < n && why == 0) kill(pid, SIGKILL);
+    int status = 0; waitpid(pid, &status, 0); close(fd[0]);
+    if (got < n) {
+      int hang = why == 0 || (WIFSIGNALED(status) && WTERMSIG(status) == SIGVTALRM);
+      memset(&rs[got], 0, sizeof(CmpRet)); rs[got].st = hang ? ST_HANG : ST_CRASH; if (hang) n_hang++; got++;
+    }
+    start = got;
+  }
+}
+
+static const char* show_sign(const CmpRet* r, char* buf) {
+  if (r->st == ST_OK) { snprintf(buf, 8, "%d", r->c < 0 ? -1 : r->c > 0 ? 1 : 0); return buf; }
+  return r->st == ST_HANG ? "H" : r->st == ST_CRASH ? "C" : r->exc;
+}
+
+static void show_preds(const CmpRet* fwd, const CmpRet* pr, char* buf, size_t n) {
+  if (fwd->st != ST_OK || pr->st == ST_HANG || pr->st == ST_CRASH) {
+    const char* h = (fwd->st == ST_CRASH || pr->st == ST_CRASH) ? "C" : "H";
+    snprintf(buf, n, "eq=%s neq=%s gt=%s lt=%s ge=%s le=%s", h, h, h, h, h, h);
+  } else snprintf(buf, n, "eq=%d neq=%d gt=%d lt=%d ge=%d le=%d", pr->p[0], pr->p[1], pr->p[2], pr->p[3], pr->p[4], pr->p[5]);
+}
+
+/* one call against the reference: `kf` = the call's right operand holds a Tuple with a repeated object (known finding) */
+static void check_call(const char* what, const CmpRet* r, int want, int kf) {
+  if (r->st == ST_OK) {
+    int s = sign(r->c);
+    if (s == want) return;
+    if (kf) { n_kf++; XF("sig=" KF_SIG " line=%zu what=%s: sign %d, the reference order gives %d (right operand: a Tuple with one object in two slots)", lineno, what, s, want); }
+    else XF("sig=cmp-order line=%zu what=%s: sign of cmp is %d, the reference order gives %d", lineno, what, s, want);
+  } else if (r->st == ST_HANG) {
+    if (kf) { n_kf++; XF("sig=" KF_SIG " line=%zu what=%s does not return (right operand: a Tuple with one object in two slots)", lineno, what); }
+    else XF("sig=cmp-hang line=%zu what=%s does not return within %d ms of CPU time (the reference order gives %d)", lineno, what, ANSWER_CPU_MS, want);
+  } else if (r->st == ST_CRASH) XF("sig=cmp-crash line=%zu what=%s: the child process running it died", lineno, what);
+}
+
+static void op_cmp(V* a, V* b, int both) {
   var x = build(a), y = build(b);
-  int c = 0, rc = 0, caa = 0, cbb = 0;
-  const char* e1 = call_cmp(x, y, &c); const char* e2 = call_cmp(y, x, &rc);
-  n_cmp += 2;
+  int da = has_dup_tuple(a), db = has_dup_tuple(b);
+  int guard = da || db || n_fail > 0;       /* an identity walk over a repeated object never ends; after a failure nothing is trusted */
+  CmpCall ks[5] = { { x, y, 0 }, { x, y, 1 }, { y, x, 0 }, { x, x, 0 }, { y, y, 0 } };
+  CmpRet r[5]; memset(r, 0, sizeof r);
   int plain_ok = !(a->kind == K_PLAIN) || (a->tid == b->tid && plain_size(a->tid) != 0);
-  if (e1 || e2) {
-    char s1[32], s2[32]; snprintf(s1, sizeof s1, "%d", sign(c)); snprintf(s2, sizeof s2, "%d", sign(rc));
-    O("cmp exc=%s rexc=%s", e1 ? e1 : s1, e2 ? e2 : s2);
+  /* a comparison that must raise is not repeated through the predicates and the reflexive calls */
+  int n = !plain_ok ? (both ? 2 : 1) : (both ? 5 : 2);
+  if (!plain_ok) ks[1] = ks[2];
+  run_calls(ks, r, n, guard);
+  const CmpRet* fwd = &r[0]; const CmpRet* prd = plain_ok ? &r[1] : NULL; const CmpRet* rev = both ? (plain_ok ? &r[2] : &r[1]) : NULL;
+  char b1[8], b2[8], pb[96];
+  if (fwd->st == ST_EXC || (rev && rev->st == ST_EXC)) {
+    const char* e1 = fwd->st == ST_EXC ? fwd->exc : NULL; const char* e2 = rev && rev->st == ST_EXC ? rev->exc : NULL;
+    if (both) O("cmp exc=%s rexc=%s", show_sign(fwd, b1), show_sign(rev, b2)); else O("lcmp exc=%s", show_sign(fwd, b1));
     n_exc++;
-    if (plain_ok) X("sig=cmp-raises line=%zu what=cmp of two comparable values raised %s / %s", lineno, e1 ? e1 : "-", e2 ? e2 : "-");
-    else if (!e1 || !e2 || strcmp(e1, "TypeError") || strcmp(e2, "TypeError"))
-      X("sig=cmp-default line=%zu what=cmp of plain structs of different types (or of size 0) must raise TypeError both ways: %s / %s", lineno, e1 ? e1 : "-", e2 ? e2 : "-");
+    if (plain_ok) XF("sig=cmp-raises line=%zu what=cmp of two comparable values raised %s / %s", lineno, e1 ? e1 : "-", e2 ? e2 : "-");
+    else if (!e1 || (both && !e2) || strcmp(e1, "TypeError") || (both && strcmp(e2, "TypeError")))
+      XF("sig=cmp-default line=%zu what=cmp of plain structs of different types (or of size 0) must raise TypeError both ways: %s / %s", lineno, e1 ? e1 : "-", e2 ? e2 : "-");
     return;
   }
-  if (!plain_ok) X("sig=cmp-default line=%zu what=cmp of plain structs of different types (or of size 0) returned %d instead of raising TypeError", lineno, c);
-  var exc; volatile int p_eq = 0, p_neq = 0, p_gt = 0, p_lt = 0, p_ge = 0, p_le = 0;
-  V_TRY(exc, { p_eq = eq(x, y); p_neq = neq(x, y); p_gt = gt(x, y); p_lt = lt(x, y); p_ge = ge(x, y); p_le = le(x, y); });
-  if (exc) { O("cmp exc=%s rexc=pred", v_exc_name(exc)); X("sig=cmp-raises line=%zu what=a predicate raised %s where cmp did not", lineno, v_exc_name(exc)); return; }
-  int s = sign(c), rs = sign(rc);
-  O("cmp s=%d rs=%d eq=%d neq=%d gt=%d lt=%d ge=%d le=%d", s, rs, p_eq, p_neq, p_gt, p_lt, p_ge, p_le);
-  if (s) n_nonzero++;
-  if (!plain_ok) return;
+  if (!plain_ok) {
+    XF("sig=cmp-default line=%zu what=cmp of plain structs of different types (or of size 0) returned %d instead of raising TypeError", lineno, fwd->c);
+    if (both) O("cmp s=%s rs=%s eq=- neq=- gt=- lt=- ge=- le=-", show_sign(fwd, b1), show_sign(rev, b2)); else O("lcmp s=%s eq=- neq=- gt=- lt=- ge=- le=-", show_sign(fwd, b1));
+    return;
+  }
+  if (prd->st == ST_EXC) {
+    if (both) O("cmp exc=%s rexc=pred", prd->exc); else O("lcmp exc=%s", prd->exc);
+    XF("sig=cmp-raises line=%zu what=a predicate raised %s where cmp did not", lineno, prd->exc); return;
+  }
+  show_preds(fwd, prd, pb, sizeof pb);
+  if (both) O("cmp s=%s rs=%s %s", show_sign(fwd, b1), show_sign(rev, b2), pb); else O("lcmp s=%s %s", show_sign(fwd, b1), pb);
+  if (fwd->st == ST_OK && fwd->c) n_nonzero++;
+  if (da || db) n_alias++;
+  /* ---- the oracle: the content-based reference order; which objects are shared must not matter */
   int want = ref_cmp(a, b);
-  if (s != want) X("sig=cmp-order line=%zu what=sign of cmp is %d, the reference order gives %d", lineno, s, want);
-  if (rs != -s) X("sig=cmp-antisym line=%zu what=sign cmp(a,b)=%d but sign cmp(b,a)=%d", lineno, s, rs);
-  if (call_cmp(x, x, &caa) || caa != 0 || call_cmp(y, y, &cbb) || cbb != 0) X("sig=cmp-refl line=%zu what=cmp(a,a)=%d cmp(b,b)=%d", lineno, caa, cbb);
-  if (p_eq != (s == 0) || p_neq != (s != 0) || p_gt != (s > 0) || p_lt != (s < 0) || p_ge != (s >= 0) || p_le != (s <= 0))
-    X("sig=cmp-preds line=%zu what=predicates eq=%d neq=%d gt=%d lt=%d ge=%d le=%d are not those of cmp's sign %d", lineno, p_eq, p_neq, p_gt, p_lt, p_ge, p_le, s);
+  check_call(both ? "cmp(a,b)" : "lcmp: cmp(a,b)", fwd, want, db);
+  if (fwd->st == ST_OK && prd->st == ST_OK) {
+    int s = sign(fwd->c); const int* p = prd->p;
+    if (p[0] != (s == 0) || p[1] != (s != 0) || p[2] != (s > 0) || p[3] != (s < 0) || p[4] != (s >= 0) || p[5] != (s <= 0))
+      XF("sig=cmp-preds line=%zu what=predicates eq=%d neq=%d gt=%d lt=%d ge=%d le=%d are not those of cmp's sign %d", lineno, p[0], p[1], p[2], p[3], p[4], p[5], s);
+  } else if (fwd->st == ST_OK) check_call("a predicate of (a,b)", prd, 0, db);
+  if (!both) return;
+  check_call("cmp(b,a)", rev, -want, da);
+  if (fwd->st == ST_OK && rev->st == ST_OK && sign(rev->c) != -sign(fwd->c)) {
+    if (da || db) { n_kf++; XF("sig=" KF_SIG " line=%zu what=sign cmp(a,b)=%d but sign cmp(b,a)=%d (an operand holds a Tuple with one object in two slots)", lineno, sign(fwd->c), sign(rev->c)); }
+    else XF("sig=cmp-antisym line=%zu what=sign cmp(a,b)=%d but sign cmp(b,a)=%d", lineno, sign(fwd->c), sign(rev->c));
+  }
+  const CmpRet* aa = &r[3]; const CmpRet* bb = &r[4];
+  if (aa->st != ST_OK || aa->c != 0) {
+    if (da) { n_kf++; XF("sig=" KF_SIG " line=%zu what=cmp(a,a)=%s for a Tuple with one object in two slots", lineno, show_sign(aa, b1)); }
+    else XF("sig=cmp-refl line=%zu what=cmp(a,a)=%s", lineno, show_sign(aa, b1));
+  }
+  if (bb->st != ST_OK || bb->c != 0) {
+    if (db) { n_kf++; XF("sig=" KF_SIG " line=%zu what=cmp(b,b)=%s for a Tuple with one object in two slots", lineno, show_sign(bb, b1)); }
+    else XF("sig=cmp-refl line=%zu what=cmp(b,b)=%s", lineno, show_sign(bb, b1));
+  }
 }
 
 static void op_tri(V* a, V* b, V* c) {
   var x = build(a), y = build(b), z = build(c);
-  int r[6]; const char* e = NULL; const char* e1;
-  var p[6][2] = { {x,y}, {y,x}, {y,z}, {z,y}, {x,z}, {z,x} };
-  for (int k = 0; k < 6; k++) { e1 = call_cmp(p[k][0], p[k][1], &r[k]); if (e1) e = e1; r[k] = sign(r[k]); }
-  n_cmp += 6;
-  if (e) { O("tri exc=%s", e); X("sig=cmp-raises line=%zu what=cmp of two comparable values raised %s", lineno, e); return; }
-  O("tri ab=%d ba=%d bc=%d cb=%d ac=%d ca=%d", r[0], r[1], r[2], r[3], r[4], r[5]);
+  int kf = has_dup_tuple(a) || has_dup_tuple(b) || has_dup_tuple(c);
+  int guard = kf || n_fail > 0;
+  CmpCall ks[6] = { {x,y,0}, {y,x,0}, {y,z,0}, {z,y,0}, {x,z,0}, {z,x,0} };
+  CmpRet rr[6]; int r[6]; const char* e = NULL; int odd = 0;
+  run_calls(ks, rr, 6, guard);
+  for (int k = 0; k < 6; k++) { if (rr[k].st == ST_EXC) e = rr[k].exc; else if (rr[k].st != ST_OK) odd = 1; r[k] = sign(rr[k].c); }
+  if (e) { O("tri exc=%s", e); XF("sig=cmp-raises line=%zu what=cmp of two comparable values raised %s", lineno, e); return; }
+  char sb[6][8];
+  O("tri ab=%s ba=%s bc=%s cb=%s ac=%s ca=%s", show_sign(&rr[0], sb[0]), show_sign(&rr[1], sb[1]), show_sign(&rr[2], sb[2]),
+    show_sign(&rr[3], sb[3]), show_sign(&rr[4], sb[4]), show_sign(&rr[5], sb[5]));
+  if (odd) {
+    if (kf) { n_kf++; XF("sig=" KF_SIG " line=%zu what=a comparison of the triple does not return (a Tuple with one object in two slots)", lineno); }
+    else XF("sig=cmp-hang line=%zu what=a comparison of the triple does not return within %d ms of CPU time, or its process died", lineno, ANSWER_CPU_MS);
+    return;
+  }
   int ab = r[0], bc = r[2], ac = r[4];
-  if (r[1] != -ab || r[3] != -bc || r[5] != -ac) X("sig=cmp-antisym line=%zu what=triple not antisymmetric: ab=%d ba=%d bc=%d cb=%d ac=%d ca=%d", lineno, r[0], r[1], r[2], r[3], r[4], r[5]);
+  const char* sg_anti = kf ? KF_SIG : "cmp-antisym"; const char* sg_trans = kf ? KF_SIG : "cmp-trans"; const char* sg_order = kf ? KF_SIG : "cmp-order";
+  if (r[1] != -ab || r[3] != -bc || r[5] != -ac) XF("sig=%s line=%zu what=triple not antisymmetric: ab=%d ba=%d bc=%d cb=%d ac=%d ca=%d", sg_anti, lineno, r[0], r[1], r[2], r[3], r[4], r[5]);
   /* transitivity in every rotation of the triple */
   int s[3][3] = { {ab, bc, ac}, {bc, -ac, -ab}, {-ac, ab, -bc} };   /* (x≤y, y≤z ⇒ x≤z) for (a,b,c), (b,c,a), (c,a,b) */
   for (int k = 0; k < 3; k++) {
-    if (s[k][0] <= 0 && s[k][1] <= 0 && s[k][2] > 0) X("sig=cmp-trans line=%zu what=x<=y and y<=z but x>z (rotation %d): ab=%d bc=%d ac=%d", lineno, k, ab, bc, ac);
-    if (s[k][0] >= 0 && s[k][1] >= 0 && s[k][2] < 0) X("sig=cmp-trans line=%zu what=x>=y and y>=z but x<z (rotation %d): ab=%d bc=%d ac=%d", lineno, k, ab, bc, ac);
-    if (s[k][0] == 0 && s[k][1] != s[k][2]) X("sig=cmp-trans line=%zu what=x=y but cmp(y,z)!=cmp(x,z) (rotation %d): ab=%d bc=%d ac=%d", lineno, k, ab, bc, ac);
+    if (s[k][0] <= 0 && s[k][1] <= 0 && s[k][2] > 0) XF("sig=%s line=%zu what=x<=y and y<=z but x>z (rotation %d): ab=%d bc=%d ac=%d", sg_trans, lineno, k, ab, bc, ac);
+    if (s[k][0] >= 0 && s[k][1] >= 0 && s[k][2] < 0) XF("sig=%s line=%zu what=x>=y and y>=z but x<z (rotation %d): ab=%d bc=%d ac=%d", sg_trans, lineno, k, ab, bc, ac);
+    if (s[k][0] == 0 && s[k][1] != s[k][2]) XF("sig=%s line=%zu what=x=y but cmp(y,z)!=cmp(x,z) (rotation %d): ab=%d bc=%d ac=%d", sg_trans, lineno, k, ab, bc, ac);
   }
   if (ab != ref_cmp(a, b) || bc != ref_cmp(b, c) || ac != ref_cmp(a, c))
-    X("sig=cmp-order line=%zu what=triple signs ab=%d bc=%d ac=%d, reference %d %d %d", lineno, ab, bc, ac, ref_cmp(a, b), ref_cmp(b, c), ref_cmp(a, c));
+    XF("sig=%s line=%zu what=triple signs ab=%d bc=%d ac=%d, reference %d %d %d", sg_order, lineno, ab, bc, ac, ref_cmp(a, b), ref_cmp(b, c), ref_cmp(a, c));
 }
 
 static int same_scalar_kind(V** vs, size_t n) {
@@ -367,7 +576,7 @@ static void op_keys(V** vs, size_t n) {
     var key = build(vs[k]);
     V_TRY(exc, { set(tree, key, $I((int64_t)k)); set(table, key, $I((int64_t)k)); });
   }
-  if (exc) { O("keys exc=%s", v_exc_name(exc)); X("sig=cmp-raises line=%zu what=set raised %s", lineno, v_exc_name(exc)); del_raw(tree); del_raw(table); return; }
+  if (exc) { O("keys exc=%s", v_exc_name(exc)); XF("sig=cmp-raises line=%zu what=set raised %s", lineno, v_exc_name(exc)); del_raw(tree); del_raw(table); return; }
   /* reference: last index of an equal key, number of distinct keys */
   size_t distinct = 0;
   for (size_t k = 0; k < n; k++) { int first = 1; for (size_t j = 0; j < k; j++) if (ref_cmp(vs[j], vs[k]) == 0) first = 0; distinct += (size_t)first; }
@@ -379,12 +588,12 @@ static void op_keys(V** vs, size_t n) {
     int64_t idx = c_int(get(tree, key));
     oappend("%s%" PRId64, first ? "" : ",", idx); first = 0; cnt++;
     V* cur = (idx >= 0 && (size_t)idx < n) ? vs[idx] : NULL;
-    if (!cur) X("sig=cmp-lookup line=%zu what=Tree holds value %" PRId64 " that was never set", lineno, idx);
-    if (prev && cur && ref_cmp(prev, cur) <= 0) X("sig=cmp-tree-order line=%zu what=Tree iteration is not strictly descending in the reference order at position %zu", lineno, cnt);
+    if (!cur) XF("sig=cmp-lookup line=%zu what=Tree holds value %" PRId64 " that was never set", lineno, idx);
+    if (prev && cur && ref_cmp(prev, cur) <= 0) XF("sig=cmp-tree-order line=%zu what=Tree iteration is not strictly descending in the reference order at position %zu", lineno, cnt);
     prev = cur;
   }
-  if (len(tree) != distinct || cnt != distinct) X("sig=cmp-lookup line=%zu what=Tree holds %zu keys (iterates %zu), %zu distinct keys were set", lineno, len(tree), cnt, distinct);
-  if (len(table) != distinct) X("sig=cmp-lookup line=%zu what=Table holds %zu keys, %zu distinct keys were set", lineno, len(table), distinct);
+  if (len(tree) != distinct || cnt != distinct) XF("sig=cmp-lookup line=%zu what=Tree holds %zu keys (iterates %zu), %zu distinct keys were set", lineno, len(tree), cnt, distinct);
+  if (len(table) != distinct) XF("sig=cmp-lookup line=%zu what=Table holds %zu keys, %zu distinct keys were set", lineno, len(table), distinct);
   for (int pass = 0; pass < 2; pass++) {
     var c = pass == 0 ? tree : table;
     oappend(pass == 0 ? " tget=" : " hget=");
@@ -394,11 +603,11 @@ static void op_keys(V** vs, size_t n) {
       V_TRY(exc, { m = mem(c, vs[k]->obj); r = get(c, vs[k]->obj); });
       if (exc || !m) {
         oappend("%s-", k ? "," : "");
-        X("sig=cmp-lookup line=%zu what=key #%zu that was set into the %s is not found again (%s)", lineno, k, pass == 0 ? "Tree" : "Table", exc ? v_exc_name(exc) : "mem is false");
+        XF("sig=cmp-lookup line=%zu what=key #%zu that was set into the %s is not found again (%s)", lineno, k, pass == 0 ? "Tree" : "Table", exc ? v_exc_name(exc) : "mem is false");
       } else {
         int64_t got = c_int(r);
         oappend("%s%" PRId64, k ? "," : "", got);
-        if (got != (int64_t)want) X("sig=cmp-lookup line=%zu what=key #%zu looked up in the %s gives %" PRId64 ", the last equal key was set with %zu", lineno, k, pass == 0 ? "Tree" : "Table", got, want);
+        if (got != (int64_t)want) XF("sig=cmp-lookup line=%zu what=key #%zu looked up in the %s gives %" PRId64 ", the last equal key was set with %zu", lineno, k, pass == 0 ? "Tree" : "Table", got, want);
       }
     }
   }
@@ -417,28 +626,42 @@ static void op_sort(V** vs, size_t n) {
   var arr = new_raw(Array, elem_type(kind));
   for (size_t k = 0; k < n; k++) push(arr, build(vs[k]));
   var exc; V_TRY(exc, sort(arr));
-  if (exc) { O("sort exc=%s", v_exc_name(exc)); X("sig=cmp-raises line=%zu what=sort raised %s", lineno, v_exc_name(exc)); del_raw(arr); return; }
+  if (exc) { O("sort exc=%s", v_exc_name(exc)); XF("sig=cmp-raises line=%zu what=sort raised %s", lineno, v_exc_name(exc)); del_raw(arr); return; }
   olen = 0; obuf[0] = 0; oappend("sort ");
   for (size_t k = 0; k < len(arr); k++) { if (k) oappend(","); show_scalar(get(arr, $I((int64_t)k)), kind); }
   O("%s", obuf);
   /* oracle: ascending under cmp itself, and a permutation of the input (checked through the reference order) */
   for (size_t k = 0; k + 1 < len(arr); k++)
-    if (cmp(get(arr, $I((int64_t)k)), get(arr, $I((int64_t)k + 1))) > 0) X("sig=cmp-sort line=%zu what=sorted Array is not ascending under cmp at %zu", lineno, k);
+    if (cmp(get(arr, $I((int64_t)k)), get(arr, $I((int64_t)k + 1))) > 0) XF("sig=cmp-sort line=%zu what=sorted Array is not ascending under cmp at %zu", lineno, k);
   V** ref = malloc(n * sizeof(V*)); memcpy(ref, vs, n * sizeof(V*));
   for (size_t k = 1; k < n; k++) { V* x = ref[k]; size_t j = k; while (j > 0 && ref_cmp(ref[j-1], x) > 0) { ref[j] = ref[j-1]; j--; } ref[j] = x; }
-  if (len(arr) != n) X("sig=cmp-sort line=%zu what=sorted Array has %zu elements, %zu were pushed", lineno, len(arr), n);
+  if (len(arr) != n) XF("sig=cmp-sort line=%zu what=sorted Array has %zu elements, %zu were pushed", lineno, len(arr), n);
   else for (size_t k = 0; k < n; k++) {
     var it = get(arr, $I((int64_t)k)); int bad = 0;
     if (kind == K_INT) bad = c_int(it) != ref[k]->i;
     else if (kind == K_FLT) { double d = c_float(it); bad = !(d == ref[k]->d); }
     else bad = strcmp(c_str(it), (char*)ref[k]->bytes) != 0;
-    if (bad) { X("sig=cmp-sort line=%zu what=sorted Array differs from the reference sort at position %zu", lineno, k); break; }
+    if (bad) { XF("sig=cmp-sort line=%zu what=sorted Array differs from the reference sort at position %zu", lineno, k); break; }
   }
   free(ref); del_raw(arr);
 }
 
+/* watchdog for the calls that run in this process: a tick per second of CPU time used by the process (so that a loaded machine
+   cannot trigger it); two ticks without progress = a call that
+   does not return.  The line is reported and the process ends (the rest of the file is not run). */
+static void on_tick(int sig) {
+  (void)sig;
+  static sig_atomic_t seen = -1; static int stuck = 0;
+  if (seen != op_serial) { seen = op_serial; stuck = 0; return; }
+  if (++stuck < 2) return;
+  X("sig=cmp-hang line=%zu what=an operation on this line does not return (no progress during 2 s of CPU time); the rest of the file was not run", lineno);
+  fflush(stdout); _exit(0);
+}
+
 int main(int argc, char** argv) {
   v_init();
+  { struct sigaction sa; memset(&sa, 0, sizeof sa); sa.sa_handler = on_tick; sa.sa_flags = SA_RESTART; sigaction(SIGVTALRM, &sa, NULL);
+    struct itimerval it = { {1, 0}, {1, 0} }; setitimer(ITIMER_VIRTUAL, &it, NULL); }
   if (argc < 2) { fprintf(stderr, "usage: h_cmp <opfile>\n"); return 2; }
   size_t n; char** lines = v_read_lines(argv[1], &n);
   size_t nops = 0, nbad = 0;
@@ -446,22 +669,25 @@ int main(int argc, char** argv) {
     char* l = lines[li]; lineno = li + 1;
     if (v_skippable(l)) continue;
     /* tokenise */
+    op_serial++;
+    memset(named, 0, sizeof named); line_alias = 0;
     size_t cap = strlen(l) / 2 + 2; toks = malloc(cap * sizeof(char*)); ntok = 0; tpos = 0;
     for (char* p = strtok(l, " "); p; p = strtok(NULL, " ")) toks[ntok++] = p;
     V* vs[MAXCOUNT + 1]; size_t nv = 0; int ok = ntok >= 1;
     const char* op = ntok ? toks[0] : ""; tpos = 1;
     while (ok && tpos < ntok) { if (nv >= MAXCOUNT) { ok = 0; break; } V* v = parse_val(); if (!v) { ok = 0; break; } vs[nv++] = v; }
     nops++;
-    if (ok && strcmp(op, "cmp") == 0 && nv == 2 && runnable(vs[0], vs[1])) op_cmp(vs[0], vs[1]);
+    if (ok && strcmp(op, "cmp") == 0 && nv == 2 && runnable(vs[0], vs[1])) op_cmp(vs[0], vs[1], 1);
+    else if (ok && strcmp(op, "lcmp") == 0 && nv == 2 && runnable(vs[0], vs[1])) op_cmp(vs[0], vs[1], 0);
     else if (ok && strcmp(op, "tri") == 0 && nv == 3 && valid(vs[0]) && valid(vs[1]) && valid(vs[2])
-             && comparable(vs[0], vs[1]) && comparable(vs[1], vs[2]) && comparable(vs[0], vs[2])) op_tri(vs[0], vs[1], vs[2]);
+             && ok_pair(vs[0], vs[1]) && ok_pair(vs[1], vs[2]) && ok_pair(vs[0], vs[2])) op_tri(vs[0], vs[1], vs[2]);
     else if (ok && strcmp(op, "keys") == 0 && nv >= 1 && same_scalar_kind(vs, nv)) op_keys(vs, nv);
     else if (ok && strcmp(op, "sort") == 0 && nv >= 1 && same_scalar_kind(vs, nv)) op_sort(vs, nv);
     else { O("bad-op"); nbad++; }
     for (size_t k = 0; k < nv; k++) v_free(vs[k]);
     free(toks);
   }
-  if (key_disagreements) X("sig=float-key line=0 what=the C relational operators and the sign-magnitude key of the bits disagree on %zu pairs of doubles", key_disagreements);
-  I("ops=%zu bad=%zu cmp_calls=%zu raised=%zu nonzero=%zu", nops, nbad, n_cmp, n_exc, n_nonzero);
+  if (key_disagreements) XF("sig=float-key line=0 what=the C relational operators and the sign-magnitude key of the bits disagree on %zu pairs of doubles", key_disagreements);
+  I("ops=%zu bad=%zu cmp_calls=%zu raised=%zu nonzero=%zu aliased=%zu forked=%zu hangs=%zu known=%zu", nops, nbad, n_cmp, n_exc, n_nonzero, n_alias, n_forked, n_hang, n_kf);
   return 0;
 }
